@@ -75,9 +75,14 @@ class StopPointWatch(Monitor):
             return
         sp = schd.config.stop_point
         cur = self.res.prog.ppoint(str(sp)) if sp is not None else None
+        act = {(i.identity, i.submit_num) for i in schd.pool.get_tasks()
+               if i.state.status in ('preparing', 'submitted', 'running')}
         if cur != self.stop:
             self.stop = cur
             self.t_set = CLOCK.t
+            # active when the point was set (this iteration or the last)
+            self.active_at_set = act | self.prev_act
+        self.prev_act = act
         for i in schd.pool.get_tasks():
             if i.state.status == 'preparing' and i.identity not in self.seen_prep:
                 self.seen_prep.add((i.identity, i.submit_num))
@@ -98,7 +103,9 @@ class StopPointWatch(Monitor):
                     earlier = [j for k, j in self.res.world.jobs.items()
                                if k[0] == str(i.point) and k[1] == i.tdef.name
                                and k[2] < i.submit_num
-                               and j.t_submit <= self.t_set + 1.5]
+                               and j.t_submit <= self.t_set + 1.5] or [
+                        k for k in self.active_at_set
+                        if k[0] == i.identity and k[1] < i.submit_num]
                     self.res.violate('entered_preparation_beyond_stop_point', {
                         'task': i.identity, 'stop_point': self.res.prog.pstr(self.stop),
                         'stop_point_set_at': self.t_set, 'active_since': t0,
@@ -108,6 +115,8 @@ class StopPointWatch(Monitor):
 
     first_active = None
     flagged = None
+    active_at_set = frozenset()
+    prev_act = frozenset()
 
 
 def read_stopcp(run_dir):
@@ -121,6 +130,19 @@ def read_stopcp(run_dir):
     finally:
         con.close()
     return rows[-1][0] if rows else None
+
+
+def set_during_shutdown(res):
+    """The (last) stop point was set while the scheduler was already
+    draining its process pool for shutdown."""
+    msgs = [m for _l, m in res.log]
+    sets = [n for n, m in enumerate(msgs) if m.startswith('Setting stop point')]
+    if not sets:
+        return False
+    start = max([n for n, m in enumerate(msgs[:sets[-1]])
+                 if m.startswith('Workflow: ')] or [0])
+    return any(m.startswith('Waiting for the command process pool to empty')
+               for m in msgs[start:sets[-1]])
 
 
 def run(params):
@@ -241,6 +263,10 @@ def run(params):
                 for e in model.prereq_exprs(*i):
                     for a in model.conc_atoms(e):
                         u = (a[0], a[1])
+                        # (any operand beyond the point, even one of an `|`
+                        # and even beyond the final point, stops the spawn:
+                        # TaskPool.spawn_task goes by target points alone)
+                        r = max(r, a[1])
                         if u in lb:
                             r = max(r, reach(u, depth + 1))
             memo[i] = r
@@ -254,6 +280,10 @@ def run(params):
             if res.stops[-1] != 'stop:AUTOMATIC':
                 res.violate('no_auto_shutdown_at_stop_point', {
                     'stops': res.stops})
+            elif set_during_shutdown(res):
+                # the automatic shutdown had been decided (and the stop point
+                # question settled) before the command was actioned
+                sim.probe('stop_point_set_during_shutdown')
             elif exit_snaps[-1][2] is not None:
                 res.violate('stop_point_not_cleared_once_reached', {
                     'db_stopcp': exit_snaps[-1][2]})
@@ -316,7 +346,14 @@ def run(params):
                     'jobs': [list(k) for k in now_active], 'predicates': pr})
         # stop --now / clean: the restarted run completes the uninterrupted one
         if scen in ('clean', 'now') and len(res.stops) > 1:
-            if set(lb) != set(lr):
+            from .c19 import late_custom_downstream
+            if set(lb) != set(lr) and not (set(lr) - set(lb)) and (
+                    late_custom_downstream(res, set(lb) - set(lr))):
+                # a custom output message sent while the scheduler was down
+                # was lost for good (C19-F1 / C10-F1: judged by C19, not a
+                # matter of stopping and restarting)
+                sim.probe('custom_output_lost_while_down')
+            elif set(lb) != set(lr):
                 res.violate('continued_run_instances_differ', {
                     'only_uninterrupted': sorted(prog.iid(*i) for i in set(lb) - set(lr)),
                     'only_continued': sorted(prog.iid(*i) for i in set(lr) - set(lb)),
